@@ -306,6 +306,9 @@ func matchFinding(fs []Finding, prop string, v *Violation) *Finding {
 // loadCorpus returns the scenarios of /verif/corpus/<prop>/*.json (replay files
 // of earlier findings and directed cases): every run re-executes them first.
 func loadCorpus(prop string) []json.RawMessage {
+	if os.Getenv("VERIF_NO_CORPUS") != "" {
+		return nil // sensitivity experiments: random search only
+	}
 	files, _ := filepath.Glob(filepath.Join(verifRoot, "corpus", prop, "*.json"))
 	sort.Strings(files)
 	var out []json.RawMessage
